@@ -62,6 +62,11 @@ def main() -> int:
         if not usable(run, r):
             continue
         wb = {"doc": j["doc"], "cfg": inf["cfg"], "case": inf["label"]}
+        from ._ops import endpoint_local_capture, import_defect
+        pkg_defect = import_defect(actions_results(r))
+        capture = endpoint_local_capture(r.get("manifest") or {})
+        if pkg_defect:
+            run.ev.count("packages_with_import_defects(C01)")
         if inf.get("deterministic_valid"):
             # hand-built, known-valid documents: every operation must have been generated
             from .. import docs as _docs
@@ -103,6 +108,12 @@ def main() -> int:
                 run.ev.count("calls")
                 reqs = vr.get("requests") or []
                 if vr.get("exc") and not reqs:
+                    if pkg_defect and vr["exc"]["type"] in ("ModuleNotFoundError", "ImportError", "TypeError", "AttributeError", "KeyError", "ValueError", "NameError"):
+                        run.vd.violation("exception:package_with_unresolved_imports", f"{a['module']}.{variant} raised {vr['exc']['type']} in a package whose modules do not all import (C01 finding)", dict(w, variant=variant))
+                        continue
+                    if vr["exc"]["type"] == "UnboundLocalError" and not re.search(r"local variable '[\x00-\x7f]*'", vr["exc"]["msg"]):
+                        run.vd.violation("exception:UnboundLocalError:caseless_class_name_equals_module_local", f"{a['module']}.{variant}: {vr['exc']['msg'][:120]}", dict(w, variant=variant))
+                        continue
                     run.vd.violation(exc_key(x, vr["exc"], variant), f"{a['module']}.{variant} raised {vr['exc']['type']}: {vr['exc']['msg'][:120]} at {vr['exc'].get('where')} (no request sent)", dict(w, variant=variant))
                     continue
                 if len(reqs) != 1:
@@ -110,6 +121,9 @@ def main() -> int:
                     continue
                 run.ev.count("requests_checked")
                 for eff, det in expect.check_request(reqs[0], x):
+                    if capture and eff.split(":")[0] in ("extra", "missing", "wrong_slot"):
+                        run.vd.violation("captured_name:derived_local_captures_parameter", f"{a['module']}.{variant}: {det}", dict(w, variant=variant))
+                        continue
                     bodyish = 'body' in eff or 'form' in eff or 'part' in eff or 'content_type' in eff
                     if bodyish and (x.get("body") or {}).get("ambiguous_dispatch"):
                         run.vd.violation("multi_body_same_runtime_type", f"{a['module']}.{variant}: {det}", dict(w, variant=variant, capture=reqs[0]))
